@@ -193,8 +193,95 @@ def record(job):
     return recs, stats
 
 
+# ---------------------------------------------------------------------------------------------------------------
+# wide precisions: numbers as multi-limb integers, judged by spec/WideRound.tla
+
+WIDE_PREC = 700
+LIMB = 15
+
+
+def limbs(n: int, length: int):
+    out = []
+    for _ in range(length):
+        out.append(n & ((1 << LIMB) - 1))
+        n >>= LIMB
+    assert n == 0
+    return out
+
+
+def wide_contexts(tier: str):
+    ps = [24, 53, 113, 150, 237] if tier == 'quick' else [24, 53, 64, 113, 114, 117, 118, 150, 200, 237, 300, 500]
+    return [fp.MPFloatContext(p, rm) for p in ps for rm in MODES]
+
+
+def record_wide(job):
+    ci, tier = job
+    ctx = wide_contexts(tier)[ci]
+    p = ctx.pmax
+    recs, stats = [], Counter()
+    K = WIDE_PREC - p - 24                          # the enclosure is that many digits finer than one unit in the last place
+
+    def emit(fn, args, thunk_true, thunk_code):
+        with gmp.context(precision=WIDE_PREC, round=gmp.RoundDown, emin=gmp.get_emin_min(), emax=gmp.get_emax_max()):
+            lo = thunk_true()
+        with gmp.context(precision=WIDE_PREC, round=gmp.RoundUp, emin=gmp.get_emin_min(), emax=gmp.get_emax_max()):
+            hi = thunk_true()
+        if gmp.is_nan(lo) or gmp.is_infinite(lo) or gmp.is_infinite(hi) or lo == hi or lo == 0 or hi == 0 or (lo < 0) != (hi < 0):
+            stats['not-an-irrational-finite-nonzero-result'] += 1
+            return
+        try:
+            r = thunk_code()
+        except Exception as e:      # noqa: BLE001
+            stats[f'code-raised:{type(e).__name__}'] += 1
+            return
+        if r.is_nar() or r.is_zero():
+            recs.append({'mode': ctx.rm.name, 'neg': False, 'modd': False, 'ix': bool(r.inexact), 'm': [0], 'u': [2], 'lo': [1], 'hi': [0],
+                         'fn': fn, 'args': [str(a) for a in args], 'p': p, 'res': str(r)})
+            return
+        flo, fhi = Fraction(*map(int, lo.as_integer_ratio())), Fraction(*map(int, hi.as_integer_ratio()))
+        w = max(abs(flo), abs(fhi)) * Fraction(1, 2 ** (WIDE_PREC - 8))          # composed thunks: a few units of slack
+        flo, fhi = min(flo, fhi) - w, max(flo, fhi) + w
+        neg = fhi < 0
+        if neg:
+            flo, fhi = -fhi, -flo
+        c, e = int(r.c), int(r.exp)
+        sh = p - c.bit_length()
+        if sh < 0:
+            recs.append({'mode': ctx.rm.name, 'neg': neg, 'modd': False, 'ix': bool(r.inexact), 'm': [0], 'u': [2], 'lo': [1], 'hi': [0],
+                         'fn': fn, 'args': [str(a) for a in args], 'p': p, 'res': 'more than p digits'})
+            return
+        M, eM = c << sh, e - sh                        # exactly p digits
+        E = eM - K
+        scale = Fraction(2) ** (-E)
+        m, u = M << K, 1 << K
+        ilo, ihi = math.floor(flo * scale), math.ceil(fhi * scale)
+        if bool(r.s) != neg:
+            ilo, ihi = 0, 1                              # wrong sign: far from m on this scale
+        L = max(x.bit_length() for x in (m + u, ilo, ihi + 1)) // LIMB + 2
+        recs.append({'mode': ctx.rm.name, 'neg': neg, 'modd': bool(M & 1), 'ix': bool(r.inexact), 'm': limbs(m, L), 'u': limbs(u, L),
+                     'lo': limbs(ilo, L), 'hi': limbs(ihi, L), 'fn': fn, 'args': [str(a) for a in args], 'p': p, 'res': str(r)[:60]})
+
+    for name, g in CONSTS.items():
+        f = getattr(ops, name)
+        emit(name, [], g, lambda: f(ctx=ctx))
+    xs = [Fraction(1, 2), Fraction(3), Fraction(-5, 4), Fraction(7, 8), Fraction(10)]
+    for name in ('exp', 'log', 'sin', 'cos', 'atan', 'tanh', 'log2', 'expm1', 'erf', 'tgamma', 'asinh', 'exp2'):
+        g, f = UNARY[name], getattr(ops, name)
+        for x in xs:
+            emit(name, [x], lambda: g(to_mpfr(x)), lambda: f(Float.from_rational(x), ctx=ctx))
+    for x, y in ((Fraction(3, 2), Fraction(1, 2)), (Fraction(5), Fraction(-3, 4)), (Fraction(7, 4), Fraction(5, 2))):
+        emit('pow', [x, y], lambda: to_mpfr(x) ** to_mpfr(y), lambda: ops.pow(Float.from_rational(x), Float.from_rational(y), ctx=ctx))
+        emit('atan2', [x, y], lambda: gmp.atan2(to_mpfr(x), to_mpfr(y)), lambda: ops.atan2(Float.from_rational(x), Float.from_rational(y), ctx=ctx))
+    return recs, stats
+
+
 def run(tier: str) -> int:
     rep = core.Report('C03', tier)
+    mcw = core.run_tlc('MCWideRound', 'MCWideRound', workers=1, timeout=600)
+    if not mcw.ok:
+        print('MACHINERY: MCWideRound failed\n' + mcw.error)
+        return 2
+    rep.add_tlc(mcw.generated, mcw.distinct)
     n = len(contexts(tier))
     jobs = [(i, tier) for i in range(n)]
     if tier == 'quick':
@@ -217,7 +304,23 @@ def run(tier: str) -> int:
             inconclusive += 1
             continue
         rep.mismatch({'clause': mm[1], 'fn': r['fn']}, r)
-    rep.cov.update({'contexts': len(jobs), 'evaluations': len(recs), 'traces_validated_against_impl': len(recs) - inconclusive,
+    # ---- wide precisions
+    wres = core.pool_map(record_wide, [(i, tier) for i in range(len(wide_contexts(tier)))], chunksize=2)
+    wrecs = []
+    for r, st in wres:
+        wrecs += r
+        stats.update(st)
+    for i, r in enumerate(wrecs):
+        r['tid'] = i
+    wout = core.validate_trace('WideRoundTrace', [{k: v for k, v in r.items() if k not in ('fn', 'args', 'p', 'res')} for r in wrecs])
+    rep.add_tlc(wout.generated, wout.distinct)
+    wby = {r['tid']: r for r in wrecs}
+    for mm in wout.mismatches:
+        r = wby[mm[0]]
+        rep.mismatch({'clause': mm[1], 'fn': r['fn']}, {k: r[k] for k in ('fn', 'args', 'p', 'mode', 'res', 'ix')} | {'clause': mm[1]})
+    rep.cov['wide_precision_evaluations'] = len(wrecs)
+    rep.cov['wide_precisions'] = sorted({r['p'] for r in wrecs})
+    rep.cov.update({'contexts': len(jobs), 'evaluations': len(recs) + len(wrecs), 'traces_validated_against_impl': len(recs) + len(wrecs) - inconclusive,
                     'inconclusive_at_22_bits': inconclusive, 'distinct_nontrivial': len({(r['fn'], tuple(r['args'])) for r in recs}),
                     'by_kind': dict(Counter(r['kind'] for r in recs)), 'not_judged': dict(stats),
                     'functions': sorted(set(r['fn'] for r in recs)),
